@@ -515,6 +515,9 @@ func replaySchedule(id int, in SchedIn, mode string) []schedLine {
 			break
 		}
 	}
+	if *flagLie == "proj" && id%7 == 3 && len(lines) > 1 && lines[len(lines)-1].Proj != nil {
+		lines[len(lines)-1].Proj.Temps++ // self-test: a wrong observation must be rejected by the trace spec
+	}
 	return lines
 }
 
